@@ -199,6 +199,18 @@ def _excused(x):
 def gen_file(case):
     """case -> bytes from the reference encoder."""
     kind = case["g"]
+    if kind == "sampler_legacy_map":
+        # current note map (0x104..) with trailing zeros, legacy map region (0x24..0x83) holding other values
+        m = absdev.build_module("Sampler", [], in_project=False)
+        m["payload"]["note_samples"] = list(case["map"])
+        b = codec.encode(absdev.make_synth(m))
+        ch = codec.parse_chunks(b)
+        for i, (cid, d) in enumerate(ch):
+            if cid == b"CHDT" and len(d) == 400 and d[0xFC:0x100] == b"PMAS":
+                d = bytearray(d)
+                d[0x24:0x84] = bytes([case["legacy"]]) * 96
+                ch[i] = (cid, bytes(d))
+        return codec.build_chunks(ch)
     if kind == "synth":
         m = absdev.build_module(case["type"], case["devs"], in_project=False)
         return codec.encode(absdev.make_synth(m), case.get("layout"))
@@ -335,6 +347,8 @@ def run_case(case):
 
 
 def gen_key(case):
+    if case["g"] == "sampler_legacy_map":
+        return {"gen": "sampler_legacy_map"}
     if case["g"] == "synth":
         return {"gen": "synth", "type": case["type"]}
     return {"gen": "project", "type": "+".join(str(t) for t, _ in case["mods"]), "layout": layout_name(case.get("layout"))}
@@ -395,6 +409,9 @@ def gen_cases(ctx):
             cases.append({"g": "project", "mods": [[ty, c]]})
         cases[-2 * len(combos)]["with_edits"] = True      # default synth of each type gets all edits
         cases[-2 * len(combos) + 1]["with_edits"] = True  # default project of each type too
+    for mp in ([3] * 10 + [0] * 118, [0] * 128, [0] * 96 + [9] * 10 + [0] * 22, [1] * 128, [0] * 50 + [4] + [0] * 77):
+        for legacy in (0, 7):
+            cases.append({"g": "sampler_legacy_map", "map": mp, "legacy": legacy})
     # layouts rv never writes
     some = ["Amplifier", "Generator", "MultiSynth", "Sampler"]
     for mask in range(16):
